@@ -1,3 +1,4 @@
+use std::collections::HashSet;
 use std::io::Write;
 
 use nix::sys::signal::Signal;
@@ -126,12 +127,15 @@ pub fn waitpidx(wpid: i32, block: bool) -> types::WaitStatus {
 
 pub fn wait_fg_job(sh: &mut shell::Shell, gid: i32, pids: &[i32]) -> CommandResult {
     let mut cmd_result = CommandResult::new();
-    let mut count_waited = 0;
-    let count_child = pids.len();
-    if count_child == 0 {
+    if pids.is_empty() {
         return cmd_result;
     }
     let pid_last = pids.last().unwrap();
+    // the processes of this job that, as far as we have been told, are
+    // neither terminated nor stopped. (counting events is not enough: a
+    // process may stop, be continued and stop again while another one of
+    // the pipeline is still running.)
+    let mut pids_running: HashSet<i32> = pids.iter().copied().collect();
 
     loop {
         let ws = waitpidx(-1, true);
@@ -150,8 +154,12 @@ pub fn wait_fg_job(sh: &mut shell::Shell, gid: i32, pids: &[i32]) -> CommandResu
 
         let pid = ws.get_pid();
         let is_a_fg_child = pids.contains(&pid);
-        if is_a_fg_child && !ws.is_continued() {
-            count_waited += 1;
+        if is_a_fg_child {
+            if ws.is_continued() {
+                pids_running.insert(pid);
+            } else {
+                pids_running.remove(&pid);
+            }
         }
 
         if ws.is_exited() {
@@ -172,7 +180,9 @@ pub fn wait_fg_job(sh: &mut shell::Shell, gid: i32, pids: &[i32]) -> CommandResu
                 mark_job_member_stopped(sh, pid, 0, false);
             }
         } else if ws.is_continued() {
-            if !is_a_fg_child {
+            if is_a_fg_child {
+                sh.mark_job_member_continued(pid, gid);
+            } else {
                 signals::insert_cont_map(pid);
             }
             continue;
@@ -189,7 +199,7 @@ pub fn wait_fg_job(sh: &mut shell::Shell, gid: i32, pids: &[i32]) -> CommandResu
             cmd_result.status = status;
         }
 
-        if count_waited >= count_child {
+        if pids_running.is_empty() {
             break;
         }
     }
